@@ -76,6 +76,17 @@ def family(tier, rnd):
     K2 = cls("H", [("f", NULL)], ctor=func("H", ["T"], [ex(asg(this("f"), var("T")))]), methods=[func("run", ["N"], [decl("G", this("f")), ret(call("G", var("N")))])])
     add("hof-objects-holding-methods", prog([decl("A", new("H", var("inc"))), decl("B", new("H", var("dbl"))), disp(mcall(var("A"), "run", num(100))), disp(mcall(var("B"), "run", num(100))), disp(mcall(var("A"), "run", num(101))), ex(num(0))],
                                             funcs=[inc, dbl], classes=[K2]))
+    # a callee that handles its OWN fault (division by zero, index, unknown method, wrong argument count of a call it makes) and returns normally:
+    # the caller goes on with ITS input of the same name, its locals and its receiver
+    faults = {"div": decl("Q", bin_("div", num(1), bin_("sub", var("X"), var("X")))), "index": decl("Q", idx(lst(num(1)), num(9))), "unknown-method": ex(mcall(lst(), "nomethod")),
+              "arity": ex(call("two", num(1))), "undefined": ex(var("NOPE"))}
+    for fk, fst in faults.items():
+        inner = func("inner", ["X"], [mark("inner"), fst, ret(num(0))], [catch("@exc", [mark("inner-h"), ret(bin_("sub", num(0), var("X")))])])
+        outer = func("outer", ["X"], [decl("L", bin_("add", var("X"), num(1))), decl("R", call("inner", num(100))), disp(var("X"), var("L"), var("R")), ret(var("X"))])
+        rec = func("sumto", ["X"], [if_([bin_("eq", var("X"), num(0))], [[ret(call("inner", num(50)))]]), decl("R", call("sumto", bin_("sub", var("X"), num(1)))), ret(bin_("add", var("R"), var("X")))])
+        KO = cls("KO", [("p", num(3))], methods=[func("reg", ["X"], [decl("R", call("inner", num(999))), disp(var("X"), this("p"), var("R")), ret(var("X"))])])
+        add("callee-handles-own-%s" % fk, prog([disp(call("outer", num(7))), disp(call("sumto", num(4))), decl("O", new("KO")), disp(mcall(var("O"), "reg", num(5))), disp(call("outer", num(8))), ex(num(0))],
+                                               funcs=[inner, outer, rec, two], classes=[KO]))
     # 得到
     add("yield-binds-const", prog([ex(call("F", num(2), y="R")), disp(var("R")), decl("S", bin_("add", var("R"), num(1))), disp(var("S")), ex(num(0))], funcs=[func("F", ["X"], [ret(bin_("mul", var("X"), num(3)))])]))
     add("yield-in-fn", prog([disp(call("G")), ex(num(0))], funcs=[func("F", ["X"], [ret(bin_("mul", var("X"), num(3)))]), func("G", [], [ex(call("F", num(2), y="R")), ret(var("R"))])]))
